@@ -81,9 +81,10 @@ pub fn eval_hist(case: &Case) -> Driver {
 pub fn evaluate(prop: &str, case: &Case, fault: &Fault) -> Vec<Failure> {
     match fault {
         Fault::None => {
-            let d = if prop == "C04" {
+            let d = if prop == "C04" || prop == "C17" {
                 let mut d = Driver::new(case);
                 d.lenient = true;
+                d.lenient_io = prop == "C17";
                 d.run_all(&case.ops);
                 d
             } else {
